@@ -232,7 +232,7 @@ def families(ctx, battery=None):
 
 # ---------------------------------------------------------------------------------------------------------------- native battery
 
-VJ_SCHEMA = ('entity Group; entity User in [Group] { n: Long, s: String, b: Bool, ls: Set<Long>, t: datetime, d: decimal, ip: ipaddr, dur: duration, o?: Long, r: { x: Long, y?: String, e: User }, f: User, fs: Set<User>, rs: Set<{ k: String }> } tags String; '
+VJ_SCHEMA = ('entity Group in [Group]; entity User in [Group] { n: Long, s: String, b: Bool, ls: Set<Long>, t: datetime, d: decimal, ip: ipaddr, dur: duration, o?: Long, r: { x: Long, y?: String, e: User }, f: User, fs: Set<User>, rs: Set<{ k: String }> } tags String; '
              'action view appliesTo { principal: [User], resource: [User], context: { n: Long, who: User, when: datetime, r: { deep: Set<ipaddr> } } };')
 
 
@@ -243,7 +243,8 @@ def value_cases():
              'r': {'x': -9223372036854775808, 'e': U('u2')}, 'f': U('u"2'), 'fs': [U('u1'), U('u2')], 'rs': [{'k': 'a'}, {'k': ''}]}
     explicit = [{'uid': {'type': 'User', 'id': 'u1'}, 'attrs': attrs, 'parents': [{'type': 'Group', 'id': 'g'}], 'tags': {'': 'empty key', 'k': 'v'}},
                 {'uid': {'type': 'User', 'id': 'u2'}, 'attrs': dict(attrs, o=0, r={'x': 0, 'y': '', 'e': U('u1')}), 'parents': [], 'tags': {}},
-                {'uid': {'type': 'User', 'id': 'u"2'}, 'attrs': dict(attrs, fs=[], ls=[], rs=[]), 'parents': [], 'tags': {}}, {'uid': {'type': 'Group', 'id': 'g'}, 'attrs': {}, 'parents': []}]
+                {'uid': {'type': 'User', 'id': 'u"2'}, 'attrs': dict(attrs, fs=[], ls=[], rs=[]), 'parents': [], 'tags': {}}, {'uid': {'type': 'Group', 'id': 'g'}, 'attrs': {}, 'parents': [{'type': 'Group', 'id': 'mid'}]}, {'uid': {'type': 'Group', 'id': 'mid'}, 'attrs': {}, 'parents': [{'type': 'Group', 'id': 'root'}]},
+                {'uid': {'type': 'Group', 'id': 'root'}, 'attrs': {}, 'parents': []}]
     # the same store with the implicit forms schema-directed parsing accepts: entities as {type, id}, extension values as bare strings
     def implicit(v):
         if isinstance(v, dict) and set(v) == {'__entity'}:
@@ -261,7 +262,7 @@ def value_cases():
               'principal.t == datetime("2024-01-01T01:02:03.004Z")', 'principal.d == decimal("-1.2345")', 'principal.ip == ip("10.0.0.0/8")', 'principal.dur == duration("1d2h3ms")', '!(principal has o) && resource.o == 0',
               'principal.r.x == -9223372036854775807 - 1 && principal.r.e == User::"u2" && !(principal.r has y)', 'resource.r.y == "" && resource.r.e == principal', 'principal.f == User::"u\\"2"', 'principal.fs == [User::"u2", User::"u1"]',
               'principal.rs.contains({k: "a"}) && principal.rs.contains({k: ""}) && !principal.rs.contains({k: "b"})', 'principal.hasTag("") && principal.getTag("") == "empty key" && principal.getTag("k") == "v" && !resource.hasTag("k")',
-              'principal in Group::"g" && !(resource in Group::"g")', 'context.n == 1 && context.who == principal && context.when == datetime("2024-01-01") && context.r.deep.contains(ip("::1")) && context.r.deep.contains(ip("1.2.3.4/32"))',
+              'principal in Group::"g" && !(resource in Group::"g")', 'principal in Group::"root" && Group::"g" in Group::"root" && !(Group::"root" in Group::"g")', 'context.n == 1 && context.who == principal && context.when == datetime("2024-01-01") && context.r.deep.contains(ip("::1")) && context.r.deep.contains(ip("1.2.3.4/32"))',
               'User::"u\\"2".fs.isEmpty() && User::"u\\"2".ls.isEmpty() && User::"u\\"2".rs.isEmpty()']
     return [{'op': 'value_json', 'schema': VJ_SCHEMA, 'entities': explicit, 'implicit': imp, 'context': cx, 'implicit_context': implicit(cx), 'probes': probes}]
 
